@@ -87,7 +87,7 @@ def _make_field(cc, node, built, path):
     fam = node["family"]
     p = dict(node.get("params", {}))
     kw = {}
-    for name in ("required", "name", "sensitive", "env", "help"):
+    for name in ("required", "name", "sensitive", "env", "help", "key"):  # (key: a constructor key; the schema's name for the field replaces it)
         if name in p:
             kw[name] = p.pop(name)
     if "default" in p:
@@ -364,7 +364,8 @@ def _fill(cc, schema, node, built, prefix, via=""):
                 if "env" in ch:
                     kw["env"] = ch["env"]
                 if ch.get("ctor_key"):
-                    kw["key"] = key  # the key is also given to the constructor (as a schema built on its own would have it)
+                    # the key is also given to the constructor (as a schema built on its own would have it), or another one
+                    kw["key"] = ch["ctor_key"] if isinstance(ch["ctor_key"], str) else key
                 sub = cc.Schema(dynamic=ch.get("dynamic", False), **kw)
                 put(key, sub)
             _fill(cc, sub, ch, built, path)
